@@ -196,3 +196,36 @@ def c05(ctx, rep):
     cfg_rules.rule_call_graph(ctx, rep)
     cfg_rules.rule_return_point_siblings(ctx, rep)
     cfg_rules.rule_global_edges_inverse(ctx, rep)
+
+
+@prop("C02", "Decides the structural clauses of C02: (R-GATE) guard table of search_paths - a path is appended only at a global leaf, "
+             "unvalidated, with the current block included; the four prunes; retsub resumes at the top frame's return point with the "
+             "frame popped; persistent path/call-stack/executed arguments; initial call; (T-SEARCH) the path search on 13 abstract CFG "
+             "neighbourhoods incl. loops through callsub blocks and shared subroutines: exact list of reported block sequences, no "
+             "duplicates; (R-DEDUP + T-CFG) duplicate-free successor lists; (T-RENDER) short notation / JSON / filter renderings. "
+             "Not decided: duplicate- and cycle-freedom of the enumeration for every graph (follows from these clauses; not mechanised).")
+def c02(ctx, rep):
+    detectors.rule_search_paths_exits(ctx, rep)
+    detectors.rule_search_paths_rows(ctx, rep)
+    detectors.rule_renderings(ctx, rep)
+    cfg_rules.rule_successor_dedup(ctx, rep)
+    cfg_rules.rule_global_edges_inverse(ctx, rep)
+    cfg_rules.rule_cfg_shapes(ctx, rep, rule="T-CFG")
+
+
+from .rules import function_rules  # noqa: E402
+
+
+@prop("C12", "Decides the structural clauses of C12: (T-FUNCTION) copy_main_cfg/construct_function evaluated abstractly on 11 program "
+             "shape classes and 5 dispatch paths (context analysis phase abstracted away): [B0] gives an isomorphic main graph of fresh "
+             "blocks sharing the subroutine blocks, used-subroutine closure, contexts for every block, off-path successors replaced by "
+             "error blocks symmetrically except at the last path block, invalid paths rejected, the contract's graph unchanged, functions "
+             "independent of each other; (R-ORDER/R-PAIR/R-ITER/R-OWN) structural rules over parse_functions; (T-BLOCK) the error block "
+             "constrains to the empty set. Not decided: C06-C10 relative to exactly the function's executions.")
+def c12(ctx, rep):
+    function_rules.rule_function_construction(ctx, rep)
+    cfg_rules.rule_pass_order(ctx, rep)
+    cfg_rules.rule_edge_pairing(ctx, rep)
+    cfg_rules.rule_no_mutation_under_iteration(ctx, rep)
+    cfg_rules.rule_edge_ownership(ctx, rep)
+    generic_tables.rule_block(ctx, rep)
